@@ -86,6 +86,8 @@ class Check(RuntimeCheck):
             ('v', Profile(max_terms=5, max_calls=10, resp_weights=[('ret', 8), ('def', 1), ('ans', 2)], partial_chance=(0, 1), unmentioned_call_chance=(0, 1), end='mixed', clones=1), n),
             ('vo', Profile(max_terms=4, max_calls=10, ordered_weight=3, resp_weights=[('ret', 8), ('ans', 2)], end='mixed'), n // 2),
             # responses that hand the call on (default body / real function) on methods that have both: matches are counted all the same
+            # answers that park a clone of the mock in the instance's own value chain: released before the clone count is read
+            ('vp', Profile(max_terms=4, max_calls=8, resp_weights=[('ret', 3), ('ans', 6)], park_weight=6, partial_chance=(0, 1), unmentioned_call_chance=(0, 1), end='mixed'), n // 3),
             ('vd', Profile(methods=[3, 7], max_terms=4, max_calls=10, resp_weights=[('ret', 3), ('dfl', 4), ('unm', 3), ('ans', 1)], partial_chance=(1, 4), unmentioned_call_chance=(0, 1), end='mixed', clones=1), n // 2),
         ]
 
